@@ -12,6 +12,9 @@ view == <<cfg, now, st, started, nextAt, failed, q, att, ngate>>
 \* att: sequence over gate ids of records [c, k, s] with s in "pending" / "ok" / "e1" (resolved and delivered)
 Delay(k) == IF cfg.mode = "fixed" THEN cfg.d ELSE IF cfg.mode = "dyn" THEN (IF k = 1 THEN 2 ELSE 1) ELSE 0
 Par == cfg.mode = "par" \/ cfg.max = 1
+\* cfg.blk = 1: the wrapped service's further clones never become ready (back-pressure): hedge attempts are
+\* launched but never reach the wrapped service, and never fail either; the primary alone decides
+Blk == "blk" \in DOMAIN cfg /\ cfg.blk = 1
 InitWith(cf) ==
   /\ cfg = cf /\ now = 0 /\ st = [c \in Callers |-> "idle"] /\ started = [c \in Callers |-> 0]
   /\ nextAt = [c \in Callers |-> 0] /\ failed = [c \in Callers |-> 0] /\ q = [c \in Callers |-> <<>>]
@@ -29,10 +32,11 @@ NewAtts(c, k0, n) == [i \in 1..n |-> [c |-> c, k |-> k0 + i - 1, s |-> "pending"
 \* first poll: the primary starts (in parallel mode: all attempts)
 FirstPoll(c) ==
   /\ st[c] = "created"
-  /\ LET n == IF Par THEN cfg.max ELSE 1 IN
-     /\ att' = att \o NewAtts(c, 0, n) /\ ngate' = ngate + n
+  /\ LET n == IF Par THEN cfg.max ELSE 1
+         ng == IF Blk THEN 1 ELSE n IN
+     /\ att' = att \o NewAtts(c, 0, ng) /\ ngate' = ngate + ng
      /\ started' = [started EXCEPT ![c] = n]
-     /\ ev' = [e |-> "poll", c |-> c, t |-> now, res |-> "pending", ns |-> n, si |-> ngate + 1, sc |-> c]
+     /\ ev' = [e |-> "poll", c |-> c, t |-> now, res |-> "pending", ns |-> ng, si |-> ngate + 1, sc |-> c]
   /\ st' = [st EXCEPT ![c] = "running"]
   /\ nextAt' = [nextAt EXCEPT ![c] = now + Delay(1)]
   /\ UNCHANGED <<cfg, now, failed, q>>
@@ -61,10 +65,11 @@ Poll(c) ==
              /\ UNCHANGED <<started, nextAt, failed, att, ngate>>
         ELSE IF ~Par /\ started[c] < cfg.max /\ now >= nextAt[c]
         THEN \* the delay since the previous start is over: next hedge
-             /\ att' = att \o NewAtts(c, started[c], 1) /\ ngate' = ngate + 1
+             /\ IF Blk THEN UNCHANGED <<att, ngate>> ELSE (att' = att \o NewAtts(c, started[c], 1) /\ ngate' = ngate + 1)
              /\ started' = [started EXCEPT ![c] = @ + 1] /\ nextAt' = [nextAt EXCEPT ![c] = now + Delay(started[c] + 1)]
              /\ failed' = [failed EXCEPT ![c] = nf] /\ q' = [q EXCEPT ![c] = <<>>]
-             /\ ev' = [e |-> "poll", c |-> c, t |-> now, res |-> "pending", ns |-> 1, si |-> ngate + 1, sc |-> c]
+             /\ ev' = (IF Blk THEN [e |-> "poll", c |-> c, t |-> now, res |-> "pending", ns |-> 0]
+                       ELSE [e |-> "poll", c |-> c, t |-> now, res |-> "pending", ns |-> 1, si |-> ngate + 1, sc |-> c])
              /\ UNCHANGED st
         ELSE /\ failed' = [failed EXCEPT ![c] = nf] /\ q' = [q EXCEPT ![c] = <<>>]
              /\ ev' = [e |-> "poll", c |-> c, t |-> now, res |-> "pending", ns |-> 0]
